@@ -30,6 +30,7 @@ type scase struct {
 	Hold    string   `json:"hold"`
 	During  string   `json:"during"`
 	Hold2   string   `json:"hold2"`
+	Body    bool     `json:"body"` // the request carries a body (HTTP: POST with Content-Length; a bolt request always has one)
 	// Steps, when present, is an explicit schedule (derived from a TLC behaviour of DownstreamImpl):
 	// hold:<point>[#n] | arrive:<point> | release:<point> | await:<event name> | do:<gtimer|ptimer|upresp|upclose|clientreset>
 	Steps []string `json:"steps"`
@@ -57,6 +58,20 @@ func u32(x interface{}) uint64 {
 type dsClient interface {
 	Recv(d, grace time.Duration) e2e.Outcome
 	Close()
+}
+
+func method(c scase) string {
+	if c.Body {
+		return "POST"
+	}
+	return "GET"
+}
+
+func reqBody(c scase, tok string) string {
+	if c.Body {
+		return "req-" + strings.Repeat("x", 64)
+	}
+	return ""
 }
 
 // readBooks sums the circuit-breaker resources of the four clusters.
@@ -274,12 +289,12 @@ func main() {
 		} else if isH2 {
 			hc, err := e2e.DialH2(laddr)
 			vh.Must(err, "dial proxy")
-			vh.Must(hc.Send("GET", "/"+c.Cluster+"/x?tok="+tok, hdr, ""), "send")
+			vh.Must(hc.Send(method(c), "/"+c.Cluster+"/x?tok="+tok, hdr, reqBody(c, tok)), "send")
 			cl = hc
 		} else {
 			hc, err := e2e.DialHTTP(laddr)
 			vh.Must(err, "dial proxy")
-			vh.Must(hc.Send("GET", "/"+c.Cluster+"/x?tok="+tok, hdr, ""), "send")
+			vh.Must(hc.Send(method(c), "/"+c.Cluster+"/x?tok="+tok, hdr, reqBody(c, tok)), "send")
 			cl = hc
 		}
 		reached, happened := false, false
